@@ -372,7 +372,7 @@ func (g *gen) field(def *ast.Definition, depth int) string {
 		if g.cfg.FieldFilter != nil && !g.cfg.FieldFilter(def.Name, f.Name) {
 			continue
 		}
-		if g.cfg.FieldFilter == nil && f.Name == "xsc" {
+		if g.cfg.FieldFilter == nil && (f.Name == "xsc" || f.Name == "xboom") {
 			continue // custom-scalar argument field: driven by C02's own generator
 		}
 		ft := g.s.Types[f.Type.Name()]
